@@ -8,6 +8,7 @@
 -/
 import GLua.Proofs.LexerBlank
 import GLua.Spec.LexRender
+import GLua.Model.LexExpect
 
 namespace GLua.Lexer
 open GLua.Generated.Lexer
@@ -80,7 +81,7 @@ theorem next_nil (s : Sc) (hs : s.rest = []) : (next s).1 = -1 ∧ (next s).2.re
 
 /-! ### unfolding `scan` and `lexAll` -/
 
-theorem scan_comment (prev : Int) (s s' : Sc)
+theorem scan_comment (prev : Prev) (s s' : Sc)
     (hc : (skipBlanks s).1 = 45 ∧ peek (skipBlanks s).2.1 = 45)
     (h : skipComments (next (skipBlanks s).2.1).1 (next (skipBlanks s).2.1).2 = .ok s') :
     scan prev s = scan prev s' := by
@@ -90,7 +91,7 @@ theorem scan_comment (prev : Int) (s s' : Sc)
   · rename_i e he; rw [h] at he; simp at he
   · rename_i s'' he; rw [h] at he; simp only [Except.ok.injEq] at he; rw [he]
 
-theorem scan_comment_err (prev : Int) (s : Sc) (e : LexErr)
+theorem scan_comment_err (prev : Prev) (s : Sc) (e : LexErr)
     (hc : (skipBlanks s).1 = 45 ∧ peek (skipBlanks s).2.1 = 45)
     (h : skipComments (next (skipBlanks s).2.1).1 (next (skipBlanks s).2.1).2 = .error e) :
     scan prev s = .err e := by
@@ -100,24 +101,24 @@ theorem scan_comment_err (prev : Int) (s : Sc) (e : LexErr)
   · rename_i e' he; rw [h] at he; simp only [Except.error.injEq] at he; rw [he]
   · rename_i s'' he; rw [h] at he; simp at he
 
-theorem scan_token (prev : Int) (s s' : Sc) (t : Token)
+theorem scan_token (prev : Prev) (s s' : Sc) (t : Token)
     (hc : ¬ ((skipBlanks s).1 = 45 ∧ peek (skipBlanks s).2.1 = 45))
     (h : scanToken (skipBlanks s).1 (skipBlanks s).2.1 = .ok (t, s')) :
-    scan prev s = .tok t (if (skipBlanks s).1 = 40 ∧ prev = 41 then (skipBlanks s).2.2 else false) s' := by
+    scan prev s = .tok t (if (skipBlanks s).1 = 40 ∧ prev.type = 41 then decide ((skipBlanks s).2.1.line ≠ prev.line) else false) s' := by
   rw [scan]
   simp only [hc, if_false]
   rw [h]
 
-theorem scan_token_err (prev : Int) (s : Sc) (e : LexErr)
+theorem scan_token_err (prev : Prev) (s : Sc) (e : LexErr)
     (hc : ¬ ((skipBlanks s).1 = 45 ∧ peek (skipBlanks s).2.1 = 45))
     (h : scanToken (skipBlanks s).1 (skipBlanks s).2.1 = .error e) : scan prev s = .err e := by
   rw [scan]
   simp only [hc, if_false]
   rw [h]
 
-theorem lexAll_tok (prev : Int) (s s' : Sc) (t : Token) (pnl : Bool)
+theorem lexAll_tok (prev : Prev) (s s' : Sc) (t : Token) (pnl : Bool)
     (h : scan prev s = .tok t pnl s') (ht : ¬ t.type < 0) :
-    (lexAll prev s).toks = (t, pnl) :: (lexAll t.type s').toks ∧ (lexAll prev s).err = (lexAll t.type s').err := by
+    (lexAll prev s).toks = (t, pnl) :: (lexAll { type := t.type, line := t.line } s').toks ∧ (lexAll prev s).err = (lexAll { type := t.type, line := t.line } s').err := by
   rw [lexAll]
   split
   · rename_i e he; rw [h] at he; simp at he
@@ -127,7 +128,7 @@ theorem lexAll_tok (prev : Int) (s s' : Sc) (t : Token) (pnl : Bool)
     obtain ⟨rfl, rfl, rfl⟩ := he
     simp [ht]
 
-theorem lexAll_eof (prev : Int) (s s' : Sc) (t : Token) (pnl : Bool)
+theorem lexAll_eof (prev : Prev) (s s' : Sc) (t : Token) (pnl : Bool)
     (h : scan prev s = .tok t pnl s') (ht : t.type < 0) :
     (lexAll prev s).toks = [(t, pnl)] ∧ (lexAll prev s).err = none := by
   rw [lexAll]
@@ -139,7 +140,7 @@ theorem lexAll_eof (prev : Int) (s s' : Sc) (t : Token) (pnl : Bool)
     obtain ⟨rfl, rfl, rfl⟩ := he
     simp [ht]
 
-theorem lexAll_err (prev : Int) (s : Sc) (e : LexErr) (h : scan prev s = .err e) :
+theorem lexAll_err (prev : Prev) (s : Sc) (e : LexErr) (h : scan prev s = .err e) :
     (lexAll prev s).toks = [] ∧ (lexAll prev s).err = some e := by
   rw [lexAll]
   split
